@@ -29,6 +29,49 @@ structure LoaderView where
   /-- `self.model.get_variable_by_name(self._get_variable_name(c, v))`; KeyError when there is no such variable -/
   getVar : String → String → Except PyErr VarObj
 
+/-- `Parser` / `Model` as seen by the body of the `while connections_to_process:` loop of `_add_connections` -/
+structure ConnLoopView where
+  /-- `self.model.units.get_conversion_factor(from_unit=a.units, to_unit=b.units)` -/
+  factor : VRef → VRef → Except PyErr Scale
+  /-- `v.units` -/
+  unitsOf : VRef → Container
+
+def connLoopView (reg : Registry) (vt : VarTable) : ConnLoopView where
+  factor s t := match Units.factor reg (Load.unitsOf vt s) (Load.unitsOf vt t) with
+    | .ok f => .ok f
+    | .error .dimensionality => .error ⟨"DimensionalityError"⟩
+    | .error _ => .error ⟨"KeyError"⟩
+  unitsOf v := Load.unitsOf vt v
+
+/-- `deque.popleft()` -/
+def popleft {α} : List α → Except PyErr (α × List α)
+  | [] => .error ⟨"IndexError"⟩
+  | a :: l => .ok (a, l)
+
+/-- `cf == 1` for a conversion factor (a scale is a prime-exponent map; 1 is the empty map) -/
+def scaleIsOne (f : Scale) : Bool := f.isEmpty
+
+/-- `v.assigned_to = w` (`w` may be `None` only where the variable has no source yet: nothing to record) -/
+def setAssigned (st : CState) (v : VRef) (w : Option VRef) : CState :=
+  match w with
+  | some a => { st with assigned := (v, a) :: st.assigned }
+  | none => st
+
+/-- `self.model.transfer_cmeta_id(source=s, target=t)` on the work-list state -/
+def transferCmeta (st : CState) (s : VRef) (t : Option VRef) : Except PyErr CState :=
+  match t with
+  | none => .error ⟨"AttributeError"⟩
+  | some a =>
+    if (cmetaOf st a).isSome then .error ⟨"ValueError"⟩
+    else .ok { st with cmeta := (a, cmetaOf st s) :: (s, none) :: st.cmeta }
+
+/-- `self.model.add_equation(sympy.Eq(target, src * cf_quant))` where `cf_quant = create_quantity(cf, tu / su)` -/
+def addConvEq (st : CState) (target : VRef) (src : Option VRef) (q : Scale × Container × Container) :
+    Except PyErr CState :=
+  match src with
+  | none => .error ⟨"TypeError"⟩
+  | some a => .ok { st with convs := st.convs ++ [⟨target, a, q.1, q.2.1, q.2.2⟩] }
+
 def loaderView (par : ParentMap) (vt : VarTable) : LoaderView where
   parent c := par.lookup c
   getVar c v := match vt.lookup (c, v) with
